@@ -15,7 +15,11 @@ TB = [
 ]
 AS = ["PARTIAL by nature: the frame theorem is relative to the alias table; the monitor does the detecting",
       "read-only calls are executed twice in the adapter; float results compared bit-exactly (same process, same inputs)"]
-RULE = ("flavour disk: collections LOADED from disk (SBT from .sbt.zip / .sbt.json with node cache sizes unbounded / 1 / 2, SqliteIndex, "
+RULE = ("round 4: the dump of every view also holds what it ANSWERS - len(view), `ss in view.manifest` for every signature of the world, a "
+        "containment search with a probe query (lowest-handle flat scaled signature) - so hidden indices/caches show; manifest-level read-only ops "
+        "(`vmf add|eq|in|select|filter|misc` on the manifests of two views: a+b, b+a, a+a, ==, in, select_to_manifest, _select, filter_rows, "
+        "filter_on_columns, to_picklist, locations, len, iteration, write_to_csv twice); ad-hoc zips whose member files hold 2-4 signatures (`vzipg`); "
+        "partly consumed search generators (`vro interleave`); MultiIndex with parent / prepend_location; flavour disk: collections LOADED from disk (SBT from .sbt.zip / .sbt.json with node cache sizes unbounded / 1 / 2, SqliteIndex, "
         "LCA_Database from JSON, LCA_SqliteDatabase) next to in-memory ones, interleaved selects (copying and in-place), searches / prefetch / gather "
         "run twice, and SAVES as read-only ops on every kind (SBT.save zip + directory storage, LinearIndex.save, SaveSignaturesToLocation to "
         "zip/.sig/dir/sqldb, LCA_Database.save json+sql, manifest.write_to_filename csv+sql; the collection must answer the same before and twice after); "
